@@ -166,6 +166,9 @@ for _sc in ('linear', 'log', 'logicle'):
     CALLS['plot.hist1d(%s)' % _sc] = (_plot((lambda sc: (lambda s, a: FlowCal.plot.hist1d(s + 1, channel=s.channels[2], xscale=sc, bins=16)))(_sc)), True, False)
     CALLS['plot.density2d(%s,bins list)' % _sc] = (_plot((lambda sc: (lambda s, a: FlowCal.plot.density2d(s + 1, channels=a['chs2'], bins=a['bins2'], xscale=sc, yscale=sc, mode='scatter')))(_sc)), True, False)
 CALLS['plot.hist1d(list,bins arr)'] = (_plot(lambda s, a: FlowCal.plot.hist1d(a['pops_full'], channel=1, bins=a['edges'], xscale='linear')), True, False)
+# logarithmic axes with the caller's own edge arrays starting at zero (one array per axis, and one array for both)
+CALLS['plot.density2d(log,edge arrays from 0)'] = (_plot(lambda s, a: FlowCal.plot.density2d(s + 1, channels=a['chs2'], bins=a['edges2_zero'], xscale='log', yscale='log', mode='scatter')), True, False)
+CALLS['plot.density2d(log,one edge array from 0)'] = (_plot(lambda s, a: FlowCal.plot.density2d(s + 1, channels=a['chs2'], bins=a['edges_zero'], xscale='log', yscale='log', mode='mesh')), True, False)
 # colour lists with entries left to the default (None)
 CALLS['plot.hist1d(list,colors with None)'] = (_plot(lambda s, a: FlowCal.plot.hist1d(a['pops_full'], channel=1, bins=a['edges'], xscale='linear', histtype='stepfilled',
                                                                                         facecolor=a['fc_none'], edgecolor=a['ec_none'])), True, False)
@@ -223,6 +226,7 @@ def build_args(s, rng, floaty):
         'beads': s, 'mef_values': [[0., 700., 4000., 13000.], [None, 800., 5000., 21000.]], 'mef_channels': [names[2], names[1]],
         'clustering_fxn': (lambda data, n, **kw: (np.arange(data.shape[0]) * n) // data.shape[0]), 'cparams': {}, 'sparams': {}, 'selparams': {'scale': 'linear'},
         # caller-owned containers handed to the segment readers: the declared ranges need more bits than the 8-bit parameter is wide
+        'edges2_zero': [np.array([0., 1., 10., 100., 1100.]), np.array([0., 2., 20., 200., 1100.])], 'edges_zero': np.array([0., 1., 10., 100., 1100.]),
         'beads_pos': s + 1, 'cparams_scale': {'scale': 'log'}, 'selparams_empty': {'n_std_low': 0., 'n_std_high': 0.}, 'fc_none': [None, 'tab:red'], 'ec_none': [None, None],
         'seg_path': _segment_file(), 'seg_widths': [8, 16], 'seg_ranges': [1024., 65536.], 'seg_ranges_arr': np.array([1024., 65536.]),
         'fparams': {}, 'dparams': {'mode': 'scatter', 'bins': [8, 8]}, 'hparams': [{'bins': 8}, {'bins': 8}],
